@@ -335,6 +335,8 @@ def apalache_inductive(module, deps, init, indinit, inv, workdir, expect_ok=True
         for ini, length in ((init, 0), (indinit, 1)):
             e = dict(os.environ)
             e.pop('JAVA_TOOL_OPTIONS', None)
+            # SANY (inside Apalache) unpacks its standard modules into a fresh java.io.tmpdir: keep that inside the scratch directory of this call
+            e['TMPDIR'] = d                   # (the launcher makes that directory with mktemp -t)
             try:
                 p = subprocess.run(['apalache-mc', 'check', '--init=' + ini, '--inv=' + inv, '--length=%d' % length, '--out-dir=' + os.path.join(d, 'out'),
                                     module + '.tla'], cwd=d, stdout=subprocess.PIPE, stderr=subprocess.STDOUT, timeout=timeout, env=e)
